@@ -86,6 +86,9 @@ func runC13(c *fw.Ctx) {
 		row(mset("f", "a", 9000, be8(math.MaxInt64))),                  // newest cell in the future of every clock below
 		row(mset("f", "a", 5000, "fut"), mset("f", "b", 1000, be8(1))), // exactly at / after / before depending on the clock
 		row(mset("g", "z", 1000, "other")),
+		// the family already holds OTHER columns, sorting after / before and after the ones the rules create
+		row(mset("f", "z", 1000, be8(5))),
+		row(mset("f", "0", 1000, "lo"), mset("f", "ab", 1000, "mid"), mset("f", "z", 2000, "hi")),
 	}
 	clocks := []int64{1000, 1999, 5000, 5001}
 	engines := []string{"btree", "mem"}
